@@ -31,6 +31,7 @@ type Violation struct {
 	Property  string          `json:"property"`
 	Signature string          `json:"signature"` // classifies the failure; known findings match on it
 	Cell      string          `json:"cell"`
+	Tier      string          `json:"tier,omitempty"` // tier the violation was found in (alphabets may differ between tiers)
 	Detail    string          `json:"detail"`
 	Choices   []int8          `json:"choices,omitempty"`
 	Extra     json.RawMessage `json:"extra,omitempty"`
@@ -225,6 +226,7 @@ func WorkerMain(p *Prop, tier string, shard, nshards int, out string, deadline t
 		for j := range r.Violations {
 			r.Violations[j].Property = p.ID
 			r.Violations[j].Cell = c.ID
+			r.Violations[j].Tier = tier
 		}
 
 		_ = enc.Encode(r)
@@ -740,7 +742,12 @@ func ReplayFile(path string) int {
 		return 2
 	}
 
-	env := &Env{Tier: "quick", Deadline: time.Now().Add(time.Hour), Replay: &v, Verbose: true}
+	tier := v.Tier
+	if tier == "" {
+		tier = "quick"
+	}
+
+	env := &Env{Tier: tier, Deadline: time.Now().Add(time.Hour), Replay: &v, Verbose: true}
 	r := p.Run(Cell{ID: v.Cell}, env)
 
 	for _, nv := range r.Violations {
